@@ -180,6 +180,9 @@ func c03History(x *runCtx, r *rand.Rand, c c03Config) {
 			viol("blob-roundtrip", fmt.Sprintf("round %d", round), err.Error())
 			return
 		}
+		// every owner hands out rendezvous instructions of its own: the replacement differs from the current ones
+		w.RvInfo = [][]protocol.RvInstruction{{{Variable: protocol.RVDns, Value: cborBytes(fmt.Sprintf("rv%d.lab", round))},
+			{Variable: protocol.RVDevPort, Value: cborBytes(uint16(9000 + 10*round + r.IntN(10)))}}}
 		oldGUID := d.Cred.GUID
 		before, _ := st.VoucherBytes(oldGUID)
 		cur, _ := st.Voucher(ctx, oldGUID)
